@@ -8,7 +8,7 @@ from ..pyutil import get_arg
 
 META = {
     'title': 'Taxonomy functions agree with graph-theoretic definitions on any hypernym graph',
-    'technique': 'loop/recursion census of wn/taxonomy.py, parameter-forwarding check over resolved callees, ONT subset, definitional anchors',
+    'technique': 'loop/recursion census of wn/taxonomy.py, parameter-forwarding check over resolved callees, ONT subset, definitions of the taxonomy functions stated on their effect summaries',
     'explanation': (
         'Agreement of path sets, depths and shortest paths with their graph-theoretic definitions on all digraphs is a statement '
         'about runtime values and is NOT decided. Decided clauses: R1 termination on cyclic graphs - wn/taxonomy.py contains no '
